@@ -151,7 +151,10 @@ def handleParse (s : Sess) (i : Nat) (op impl : Json) (line2 : Option Json := no
             | .error _ => [("C17", false)]
             | .ok a2 =>
               let same := a.pkts == a2.pkts && a.exports == a2.exports && a.common == a2.common && a.state == a2.state
-              [("C17", (Findings.usesUnknown c a2.state || Findings.usesUnknown c before || Findings.reportsUnknownTemplate c a2.pkts || same) && Findings.noUnknownEntries c a.pkts)]
+              -- once a history has involved a field unknown to the library the two builds may hold different caches
+              -- (the build without the feature drops the sets after an undecodable one): equality is required only before that
+              let tainted := ((s.sticky.lookup p).getD []).contains "c17-unknown-seen"
+              [("C17", (tainted || Findings.usesUnknown c a2.state || Findings.usesUnknown c before || Findings.reportsUnknownTemplate c a2.pkts || same) && Findings.noUnknownEntries c a.pkts)]
         let jsons : List Json := match impl.getObjVal? "json" with | .ok (.arr xs) => xs.toList | _ => []
         let c16 : List (String × Bool) := if wants op "json" then [("C16", a.outcome != "done" || Preds.jsonAllOk c a.pkts jsons)] else []
         let alloc := getNatD impl "alloc" 0
@@ -169,12 +172,24 @@ def handleParse (s : Sess) (i : Nat) (op impl : Json) (line2 : Option Json := no
               | .error _ => [])
         let classes0 := classes0 ++
           (if a.pkts.length ≥ 32 then ["c15-many-packets"] else []) ++
-          (if a.state.ipT.any (fun e => e.2.fields.any fun f => f.len == 65535) || a.state.ipO.any (fun e => e.2.fields.any fun f => f.len == 65535) ||
+          (if a.pkts.any (fun p => match p with
+                | .ipfix _ ss => ss.any fun s => match s.body with
+                  | .template t => t.fields.any fun f => f.len == 65535
+                  | .optTemplate t => t.fields.any fun f => f.len == 65535
+                  | _ => false
+                | _ => false) ||
+              a.state.ipT.any (fun e => e.2.fields.any fun f => f.len == 65535) || a.state.ipO.any (fun e => e.2.fields.any fun f => f.len == 65535) ||
               before.ipT.any (fun e => e.2.fields.any fun f => f.len == 65535) || before.ipO.any (fun e => e.2.fields.any fun f => f.len == 65535)
             then ["ipfix-varlen-field"] else []) ++
           (if before.ipT.any (fun e => e.2.fields.any fun f => f.len == 0) || before.ipO.any (fun e => e.2.fields.any fun f => f.len == 0) ||
               before.v9T.any (fun e => e.2.fields.any fun f => f.len == 0) then ["c15-zero-length-fields"] else [])
-        let stickyNow := ((s.sticky.lookup p).getD []) ++ classes0.filter (fun x => x == "ipfix-multi-template-set")
+        let unkNow : Bool := match line2 with
+          | some j2 => (match (fromJson? j2 : Except String ParseAns) with
+            | .ok a2 => Findings.usesUnknown c a2.state || Findings.usesUnknown c before || Findings.reportsUnknownTemplate c a2.pkts
+            | .error _ => false)
+          | none => false
+        let stickyNow := ((s.sticky.lookup p).getD []) ++ classes0.filter (fun x => x == "ipfix-multi-template-set") ++
+          (if unkNow then ["c17-unknown-seen"] else [])
         let classes := (classes0 ++ stickyNow).eraseDups
         let call : Call := { buf := buf, impl := a, model := m, implBefore := before, jsons := jsons.map (·.compress) }
         let s' := { s' with sticky := upd s'.sticky p stickyNow.eraseDups, implSts := upd s'.implSts p a.state, calls := upd s'.calls p (call :: (s'.calls.lookup p).getD []) }
